@@ -720,7 +720,7 @@ func c20Cases(c *Ctx) []*c20Case {
 	// --- D. refusal families -----------------------------------------------------------------------------------------
 	rng := c.Rng(0)
 	// D1 heartbeat-interval >= idle-timeout
-	nDur := c.Pick(20, 300)
+	nDur := c.Pick(20, 30000)
 	for i := 0; i < nDur; i++ {
 		idle := time.Duration(5+rng.Intn(7200)) * time.Second
 		if rng.Intn(3) == 0 {
@@ -770,7 +770,7 @@ func c20Cases(c *Ctx) []*c20Case {
 		n      string
 		expect string
 	}{{"0", "refuse"}, {"-1", "refuse"}, {"1", "run"}, {"2", "run"}}
-	for k := 0; k < c.Pick(3, 30); k++ {
+	for k := 0; k < c.Pick(3, 3000); k++ {
 		counts = append(counts, struct {
 			n      string
 			expect string
